@@ -65,7 +65,9 @@ def matchings(n: int) -> List[Tuple[Tuple[int, int], ...]]:
 
 
 def coord(p: int, scale: int = 0) -> int:
-    """Position of point p in the sequence: gaps of at least 4 so that stems of up to 3 pairs fit."""
+    """Position of point p in the sequence: gaps of at least 4 so that stems of up to 3 pairs fit (scale 2: up to 9 pairs)."""
+    if scale == 2:
+        return 20 * (p + 1)
     return 10 * (p + 1) if scale == 0 else 10 * (p + 1) + (3 * p) % 7 + 100
 
 
@@ -202,6 +204,22 @@ REF_OPEN = "([{<ABCDEFGHIJKLMNOPQRSTUVWXYZ"
 REF_CLOSE = ")]}>abcdefghijklmnopqrstuvwxyz"
 
 
+def levels_from_structure(structure: str, regions: Sequence[Sequence[int]]) -> Optional[List[int]]:
+    """The level of every stem read off a notation (the bracket type at its pairs); None if the text is not a notation of exactly these stems."""
+    try:
+        levels = []
+        for s, e, n in regions:
+            k = REF_OPEN.index(structure[s - 1])
+            if any(structure[s - 1 + t] != REF_OPEN[k] or structure[e - 1 - t] != REF_CLOSE[k] for t in range(n)):
+                return None
+            levels.append(k)
+        if render(len(structure), regions, levels) != structure:
+            return None
+        return levels
+    except (ValueError, IndexError):
+        return None
+
+
 def render(length: int, regions: Sequence[Sequence[int]], levels: Sequence[int]) -> str:
     """The notation the (separately verified) fill writes for (regions, levels); IndexError beyond the 30 bracket types."""
     out = ["."] * length
@@ -255,6 +273,7 @@ class Recorder:
         self.sequence = sequence
         self.by_structure: Dict[str, Token] = {}
         self.fcfs_token: Optional[Token] = None
+        self.regions: Optional[List[Region]] = None  # the stems of the receiver: lets a notation that did not come through the recorder be read
 
     def is_fcfs(self, v: Any) -> bool:
         return self.fcfs_token is not None and db_key(v) == self.fcfs_token._key()
@@ -293,24 +312,45 @@ class Recorder:
         k = db_key(v)
         if k is not None and k[1] in self.by_structure:
             return list(self.by_structure[k[1]].levels)
+        if k is not None and self.regions is not None and isinstance(k[1], str):
+            return levels_from_structure(k[1], self.regions)
         return None
 
 
 
 
+class SkipCase(NotEvaluable):
+    """This input cannot be presented to the current code consistently (see receiver)."""
+
+
+PRIVATE_STANDINS = ("__regions", "__stems_entries", "__make_dot_bracket")
+
+
 def receiver(it: Interp, regions: Sequence[Region], rec: Recorder, **over: Any) -> Instance:
+    """A BpSeq whose entries, pairs, stems and regions all describe `regions`.  Stems / regions / the fill are handed in as
+    stand-ins for the private members of those names (stage isolation: each has its own rule).  Where the code has no member
+    of such a name (renamed, merged) no stand-in is used and the object computes these itself from its entries; stem lists
+    that a real object cannot have (not in 5' order) are then skipped."""
     ents = entries_of(regions)
     pairs = {}
     for e in ents:
         if e.pair:
             pairs[e.index_] = e.pair
     rec.sequence = "".join(e.sequence for e in ents)
+    rec.regions = [tuple(r) for r in regions]
     ov: Dict[str, Any] = {
         "__regions": [tuple(r) for r in regions],
         "__stems_entries": stems_of(regions, ents),
         "__make_dot_bracket": rec.fill,
         "sequence": rec.sequence,
     }
+    natural = False
+    for name in PRIVATE_STANDINS:
+        if it._find_member(MOD, CLS, name) is None:
+            del ov[name]
+            natural = True
+    if natural and [tuple(r) for r in regions] != stems_ref([(s + t, e - t) for s, e, n in regions for t in range(n)]):
+        raise SkipCase()
     if over.pop("fcfs", False):
         lv = first_fit(regions)
         rec.fcfs_token = Token([tuple(r) for r in regions], lv, "the FCFS notation", rec.sequence, render(len(rec.sequence), regions, lv))
@@ -460,9 +500,12 @@ def fcfs_fact(chk, n_levels: int = 30) -> Optional[str]:
     n_cases = 0
     try:
         for regs in arc_cases():
-            n_cases += 1
             rec = Recorder()
-            recv = receiver(it, regs, rec)
+            try:
+                recv = receiver(it, regs, rec)
+            except SkipCase:
+                continue
+            n_cases += 1
             kind, val = attempt(lambda: it.call_member(recv, "fcfs"))
             want = first_fit(regs)
             if kind == "raise":
@@ -471,13 +514,14 @@ def fcfs_fact(chk, n_levels: int = 30) -> Optional[str]:
             if kind == "loop":
                 problems.setdefault("loop", (fi.where, f"BpSeq.fcfs does not finish on the {len(regs)} stems {show(regs)}: {val}", want, None))
                 continue
-            if not rec.calls or db_key(val) is None or db_key(val) != db_key(rec.calls[-1]):
+            if db_key(val) is None or (rec.calls and db_key(val) != db_key(rec.calls[-1])):
                 problems.setdefault("result", (fi.where, f"BpSeq.fcfs does not return the notation rendered by the fill from its (regions, levels) for the stems {show(regs)}", "self.__make_dot_bracket(regions, orders)", repr(val)[:80]))
                 continue
-            tok = rec.calls[-1]
-            if tok.regions != [tuple(r) for r in regs]:
+            if rec.calls and rec.calls[-1].regions != [tuple(r) for r in regs]:
+                tok = rec.calls[-1]
                 problems.setdefault("regions", (fi.where, f"the regions handed to the fill are {tok.regions}, not (first 5' index, its partner, length) of every stem {[tuple(r) for r in regs]}", [tuple(r) for r in regs], tok.regions))
                 continue
+            tok = Token([tuple(r) for r in regs], rec.levels_of(val), "" if rec.levels_of(val) is not None else f"the returned notation `{db_key(val)[1]}` is not a notation of these stems")
             if tok.levels != want:
                 bad = next((i for i in range(len(regs)) if tok.levels is None or tok.levels[i] != want[i]), 0)
                 why = ""
@@ -503,10 +547,10 @@ def fcfs_fact(chk, n_levels: int = 30) -> Optional[str]:
         rec = Recorder()
         recv = receiver(it, ladder, rec)
         kind, val = attempt(lambda: it.call_member(recv, "fcfs"))
-        if kind == "value" and rec.calls and rec.calls[-1].levels == list(range(n_levels)):
+        if kind == "value" and rec.levels_of(val) == list(range(n_levels)):
             chk.ok("fcfs-levels", fi.where, f"{n_levels} mutually crossing stems get the levels 0..{n_levels - 1}: FCFS offers every level of the encoder's bracket table")
         elif "levels" not in problems and "raise" not in problems:
-            got = str(val) if kind != "value" else (rec.calls[-1].levels if rec.calls else None)
+            got = str(val) if kind != "value" else rec.levels_of(val)
             chk.violation("fcfs-levels", site_of(fi, getattr(val, "lineno", None)) if kind == "raise" else fi.where, f"{n_levels} mutually crossing stems do not get the levels 0..{n_levels - 1} ({'raises ' + str(val) if kind != 'value' else 'wrong levels'}): FCFS does not offer every level of the {n_levels}-entry bracket table", K(fi, "fcfs-levels"), expected=f"0..{n_levels - 1}", found=got)
     except NotEvaluable as ex:
         return str(ex)
@@ -629,9 +673,12 @@ def graph_fact(chk, fi: FuncInfo) -> Optional[str]:
         for regs in arc_cases():
             if not adjacency(regs) and len(regs) > 2:
                 continue
-            n_cases += 1
             rec = Recorder()
-            recv = receiver(it, regs, rec, fcfs=True)
+            try:
+                recv = receiver(it, regs, rec, fcfs=True)
+            except SkipCase:
+                continue
+            n_cases += 1
             kind, val = attempt(lambda: graph_value(it, fi, recv))
             want = adjacency(regs)
             if kind != "value":
@@ -685,9 +732,12 @@ def enumeration_fact(chk) -> Optional[str]:
     cases = sorted_cases(4) + [[embed(m)[i] for i in p] for m in matchings(3) for p in ((2, 1, 0), (1, 2, 0))]
     try:
         for regs in cases:
-            n_cases += 1
             rec = Recorder()
-            recv = receiver(it, regs, rec, fcfs=True)
+            try:
+                recv = receiver(it, regs, rec, fcfs=True)
+            except SkipCase:
+                continue
+            n_cases += 1
             kind, val = attempt(lambda: it.call_member(recv, "all_dot_brackets"))
             rel = relation_text(regs)
             if kind == "raise":
@@ -1458,13 +1508,13 @@ def model_cases() -> List[List[Region]]:
     out = []
     for n in (2, 3):
         for m in matchings(n):
-            regs = embed(m, lengths=primes[:n])
+            regs = embed(m, scale=2, lengths=primes[:n])
             if adjacency(regs):
                 out.append(regs)
     # four stems: a chain, a star, a cycle, a clique, two independent H-types, a triangle with a pendant stem
     four = [((0, 2), (1, 4), (3, 6), (5, 7)), ((0, 5), (1, 6), (2, 3), (4, 7)), ((0, 3), (1, 5), (2, 6), (4, 7)), ((0, 4), (1, 5), (2, 6), (3, 7)), ((0, 2), (1, 3), (4, 6), (5, 7)), ((0, 3), (1, 4), (2, 6), (5, 7))]
     for m in four:
-        out.append(embed(m, lengths=[7, 2, 3, 5]))
+        out.append(embed(m, scale=2, lengths=[7, 2, 3, 5]))
     return out
 
 
